@@ -118,7 +118,8 @@ pub fn gen_browse_world(prop: &str, flavor: Flavor, seed: u64, index: u64, tier:
         let host_octet = 50 + p as u8;
         let mut peer = PeerCfg { seg, v4: Some(format!("192.168.{}.{}", 1 + seg, host_octet)), v6: if dual_if { Some(format!("fe80::{:x}:{:x}", 1 + seg, host_octet)) } else { None }, responder: None };
         let n_inst = 1 + rng.below(2);
-        let host = format!("{}{}.local.", ["hostp", "Box", "node-"][rng.below(3) as usize], p);
+        // (host names with ASCII and non-ASCII capital letters among them)
+        let host = format!("{}{}.local.", ["hostp", "Box", "node-", "hostp", "Box", "node-", "BÜRO-PC", "Ελληνικά-"][rng.below(8) as usize], p);
         let mut all_recs: Vec<Rec> = vec![];
         let answers_queries = rng.below(3) != 0;
         for k in 0..n_inst {
